@@ -21,6 +21,9 @@ pub const STRAT_UNIFORM: u8 = 0;
 pub const STRAT_STICKY: u8 = 1;
 pub const STRAT_PCT: u8 = 2;
 pub const STRAT_STARVE: u8 = 3;
+/// Site-targeted delay injection: a task about to execute a schedule point whose site id falls in the
+/// selected bucket is frozen for a window of decisions (a thread stalled at a precise program point).
+pub const STRAT_PAUSE: u8 = 4;
 
 #[derive(Clone, Debug, Default)]
 pub struct Trace {
@@ -39,6 +42,7 @@ pub struct SchedOut {
     pub fair_decisions: u64,
     pub spurious_wakes: u64,
     pub starve_applied: u64,
+    pub pauses_applied: u64,
     pub yields_seen: u64,
     pub replay_fallbacks: u64,
     pub max_tasks: usize,
@@ -65,6 +69,13 @@ pub struct SimScheduler {
     starve_from: u64,
     starve_len: u64,
     rr_last: usize,
+    pause_modulus: u32,
+    pause_residue: u32,
+    pause_window: u64,
+    pause_budget: u32,
+    pause_prob: u64,
+    frozen_until: Vec<u64>,
+    frozen_site: Vec<u32>,
     replay_pos: usize,
     random_pos: usize,
     last: Option<usize>,
@@ -91,8 +102,20 @@ impl SimScheduler {
                 starve_from = spec.p2 as u64;
                 starve_len = spec.p3 as u64;
             }
+            STRAT_PAUSE => {
+                // handled below (fields)
+            }
             _ => {}
         }
+        let (pause_modulus, pause_residue, pause_window, pause_budget) = if spec.strategy == STRAT_PAUSE {
+            // p1 = bucket modulus, p2 = window length, p3 = number of freezes allowed
+            let m = spec.p1.max(1);
+            (m, rng.below(m as u64) as u32, spec.p2 as u64, 64)
+        } else {
+            (1, 0, 0, 0)
+        };
+        // p3 = probability (per 1024) that a task reaching a selected site is frozen there
+        let pause_prob = spec.p3.max(1) as u64;
         Self {
             spec,
             rng,
@@ -107,6 +130,13 @@ impl SimScheduler {
             starve_from,
             starve_len,
             rr_last: 0,
+            pause_modulus,
+            pause_residue,
+            pause_window,
+            pause_budget,
+            pause_prob,
+            frozen_until: Vec::new(),
+            frozen_site: Vec::new(),
             replay_pos: 0,
             random_pos: 0,
             last: None,
@@ -222,6 +252,39 @@ impl Scheduler for SimScheduler {
                             if !filtered.is_empty() && filtered.len() < cands.len() {
                                 self.out.borrow_mut().starve_applied += 1;
                                 cands = filtered;
+                            }
+                        }
+                        if self.spec.strategy == STRAT_PAUSE {
+                            let mut kept: Vec<usize> = Vec::with_capacity(cands.len());
+                            for &t in &cands {
+                                if self.frozen_until.len() <= t {
+                                    self.frozen_until.resize(t + 1, 0);
+                                    self.frozen_site.resize(t + 1, 0);
+                                }
+                                let site = rt::pending_site(t);
+                                if self.frozen_until[t] > decision_index && self.frozen_site[t] == site {
+                                    continue; // still frozen at that point
+                                }
+                                if self.pause_budget > 0 &&
+                                    site != 0 &&
+                                    site % self.pause_modulus == self.pause_residue &&
+                                    self.frozen_site[t] != site &&
+                                    self.rng.below(1024) < self.pause_prob
+                                {
+                                    // freeze this task right before the selected program point
+                                    self.pause_budget -= 1;
+                                    self.frozen_until[t] = decision_index + self.pause_window;
+                                    self.frozen_site[t] = site;
+                                    self.out.borrow_mut().pauses_applied += 1;
+                                    continue;
+                                }
+                                if self.frozen_site[t] != site {
+                                    self.frozen_site[t] = 0;
+                                }
+                                kept.push(t);
+                            }
+                            if !kept.is_empty() {
+                                cands = kept;
                             }
                         }
                         match self.spec.strategy {
